@@ -471,13 +471,22 @@ func c14Arg(t *T) int64 {
 // number of results relative to the input length tells whether the selection was a real one
 func c14NonTrivial(in []int64) bool {
 	if in[0] == fFlex {
-		out := c14FlexImpl(in, nil)
+		out := SafeImpl(props["C14"], in)
+		if len(out) == 1 {
+			return false
+		}
 		// at least three operations and a capacity change
 		caps := map[int64]bool{}
 		n := 0
 		for p := 0; p < len(out); {
 			p += 1 + int(out[p])
+			if p >= len(out) {
+				return false
+			}
 			p += 1 + int(out[p])
+			if p >= len(out) {
+				return false
+			}
 			caps[out[p]] = true
 			p++
 			n++
